@@ -343,3 +343,15 @@ package ckks
 //@   ensures implies(isnil(err), sameval(opOut.MetaData.PlaintextMetaData.Scale, old(ctIn.MetaData.PlaintextMetaData.Scale)) && sameval(opOut.MetaData.PlaintextMetaData.LogDimensions, old(ctIn.MetaData.PlaintextMetaData.LogDimensions)))
 //@   ensures implies(isnil(err), iff(opOut.MetaData.CiphertextMetaData.IsNTT, old(ctIn.MetaData.CiphertextMetaData.IsNTT)))
 //@   ensures implies(isnil(err), len(opOut.Value[0].Coeffs) == 2 && len(opOut.Value[1].Coeffs) == 2)
+
+// ---- RescaleTo stops at level 0 (property C06: "division by the consumed primes"): it never asks for a negative
+// ---- level (finding F81: the loop also divided by q_0).  Bounded instance: input at level 1, loop unwound.
+//@ afunc Evaluator.RescaleTo
+//@   property C06
+//@   safety rows
+//@   bounded input at level 1 (two rows), the loop over the levels unwound
+//@   unwind 4
+//@   case len(op0.Value) == 2 && len(op0.Value[0].Coeffs) == 2 && len(op0.Value[1].Coeffs) == 2 && len(opOut.Value) == 2 && len(opOut.Value[0].Coeffs) >= 1 && len(opOut.Value[1].Coeffs) == len(opOut.Value[0].Coeffs)
+//@   case len(op0.Value) == 2 && len(op0.Value[0].Coeffs) == 2 && len(op0.Value[1].Coeffs) == 2 ; alias opOut = op0
+//@   requires !isnil(op0.MetaData) && !isnil(opOut.MetaData)
+//@   ensures implies(isnil(result), len(opOut.Value[0].Coeffs) >= 1)
